@@ -852,6 +852,14 @@ func (fr *Frame) lookupLocal(st *State, name string, pos token.Pos) (*Val, bool)
 				return nil, false
 			}
 		}
+		// variables that live in the heap because their address escapes
+		for _, a := range f.heapAllocs {
+			if a.Comment == name {
+				if pv, ok := f.regs[a]; ok {
+					return x.loadPath(st, x.ptrOf(pv)), true
+				}
+			}
+		}
 		for fv, v := range f.freeVars {
 			if fv.Name() == name {
 				if p, ok := v.X.(*PtrPath); ok {
